@@ -54,9 +54,10 @@ impl System for Probe {
 
 pub(crate) fn assert_trace(world: &World, expect: &[u8], what: &'static str) {
     let t = world.resource::<Trace>();
-    assert!(t.n == expect.len(), "{}", what);
+    let _ = what;
+    assert!(t.n == expect.len(), "trace of the run (INIT? BODY CLEANUP DEFERRED*): cleanup exactly once, after the body, before the deferred commands; initialize only on the first run");
     let mut i = 0;
-    while i < expect.len() { assert!(t.marks[i] == expect[i], "{}", what); i += 1; }
+    while i < expect.len() { assert!(t.marks[i] == expect[i], "trace of the run (INIT? BODY CLEANUP DEFERRED*): cleanup exactly once, after the body, before the deferred commands; initialize only on the first run"); i += 1; }
 }
 
 // ---------------------------------------------------------------------------------------------------------------
